@@ -1263,6 +1263,11 @@ class H2Stream:
             )
         ]
 
+        # An empty header list encodes to zero bytes, which still needs one
+        # (empty) frame to carry it.
+        if not header_blocks:
+            header_blocks = [b'']
+
         frames = []
         first_frame.data = header_blocks[0]
         frames.append(first_frame)
